@@ -29,7 +29,8 @@ from vf.monitors.timeflow import TimeFlow  # noqa: E402
 from vf.monitors.horizon import Horizon  # noqa: E402
 from vf.props import common  # noqa: E402
 
-PROF = common.full_profile("C02", allowed=common.FULL + ["exact", "deadlock"], horizon=(0.25, 12.0), budget=300)
+PROF = common.full_profile("C02", allowed=common.FULL + ["exact", "deadlock"], horizon=(0.25, 12.0), budget=300,
+                           plans=("max_time", "max_time", "max_customers"))      # kept as when the committed corpus was minimised
 PROF.weights.update({"exact": 0.1, "deadlock": 0.1, "tracker": 0.3})
 KNOWN = RUN.load_known()
 STATS = {"cases": 0, "findings": 0, "known": 0, "aborted": 0, "events": 0}
